@@ -21,3 +21,22 @@ claim("C33", "exhaustive enumeration of heights + property-based testing of name
 claim("C34", "property-based testing (proptest): round trip and differential against exact decimal arithmetic",
       "Pile display -> Decimal parse -> to_integer identity, and arbitrary decimal strings against exact big-integer evaluation.",
       "Divisibility domain 0..=38 as in the protocol.")
+
+claim("C20", "property-based testing (proptest) with an independent validity predicate over the built transaction",
+      "Generated wallet states, satpoints, recipients, fee rates and targets; a panic is a violation, Err is accepted, every Ok transaction is validated clause by clause by a checker that shares no code with the builder.",
+      "UTXO values >= 1 sat, P2TR change addresses and burn targets >= 1 sat (caller preconditions, see DESIGN.md C20); known findings listed in known-findings.txt are excluded by signature and counted.")
+claim("C25", "property-based testing (proptest): round trip + differential against a reference decipherer written from the specification",
+      "Well-formed runestones round-trip through encipher/decipher; generated integer sequences, push layouts and damaged scripts are deciphered by ord and by an independent reference and must agree exactly, flaw precedence included.",
+      "The reference decipherer (harness/src/props/runestone.rs) is trusted to implement docs/src/runes/specification.md.")
+claim("C27", "property-based testing (proptest): round trip through reveal scripts + totality on generated witnesses",
+      "Inscriptions built with the public constructor and fields are written to reveal scripts and parsed back field by field; arbitrary witness stacks never panic.",
+      "Field values are non-empty, as the property states.")
+claim("C28", "property-based testing (proptest): round trip for three encodings + bounded-decompression oracle",
+      "Properties values round-trip inline, packed and through Inscription::new with compression; generated brotli bombs around the 30:1 and 4,000,000-byte limits are refused exactly when the harness' own decompressor says they exceed the limit.",
+      "brotli crate trusted; hooks H6 expose the crate-private encoders unchanged.")
+claim("C35", "property-based testing (proptest): round trip through ord's encoders and real redb tables",
+      "Generated values in every encoding's domain are stored and loaded back through the crate-private Entry implementations, UtxoEntryBuf for all 8 flag combinations, merged pseudo-output entries and redb tables.",
+      "Hooks H5 call the encoders unchanged.")
+claim("C36", "property-based testing (proptest): differential against the documented precedence rule",
+      "Generated subsets of sources per setting with pairwise different values; Settings::merge output compared per key with flag > env > file > default, OR for switches, union for hidden.",
+      "Environment passed as the map that Settings::load builds (process environment not mutated).")
